@@ -20,7 +20,7 @@ RULES = {
     "R3": "the emission of update_buffer as a truth table over (alpha, upper transparent, lower transparent, halves equal), read off its symbolic output shape: both transparent -> SGR_DEFAULT + blanks; one half transparent -> SGR_DEFAULT + FG of the other half + that half's glyph; opaque -> BG from the lower cluster (+ FG of the upper one and the upper-half glyph unless equal); the kitty workaround tests and nudges the background cluster",
     "R4": "alpha classification: the text renderer requests round_alpha=True and derives `alpha` from the returned mode; _get_render_data rounds the "
           "threshold to 0..255, classifies with strict `<` (at or above is opaque) and composites over the terminal background under state-only "
-          "conditions (no data-dependent shortcut); the background an image is composited over is the given colour or the terminal background with an opaque (string) fallback, never a numeric fill; shared with C19.R2: the transparency field of a format specifier is classified by the grammar's groups; the source image is read-only: no in-place edit of `<img>.info` / `.palette` where <img> can be the source object; nor is the image object modified in place (draft / paste / putalpha / thumbnail ...) where it can be the source, in _get_render_data and in the _render_image methods; resize(size, BOX) takes no reducing_gap / box",
+          "conditions (no data-dependent shortcut); the background an image is composited over is the given colour or the terminal background with an opaque (string) fallback, never a numeric fill; shared with C19.R2: the transparency field of a format specifier is classified by the grammar's groups; the source image is read-only: no in-place edit of `<img>.info` / `.palette` where <img> can be the source object; nor is the image object modified in place (draft / paste / putalpha / thumbnail ...) where it can be the source, in _get_render_data and in the _render_image methods; resize(size, BOX) takes no reducing_gap / box; the image is resized as a whole (the receiver of resize is the pipeline's image, not a channel or another conversion of it)",
 }
 BL, CM = "image/block.py", "image/common.py"
 SWAP = {"px1": "px2", "px2": "px1", "cluster1": "cluster2", "cluster2": "cluster1", "a1": "a2", "a2": "a1", "a_cluster1": "a_cluster2", "a_cluster2": "a_cluster1",
@@ -240,6 +240,12 @@ def rule_pixel_pipeline(ck, m, rid):
             ck.ob(rid, enclosing_stmt(c), p is None and bool(conv_tests),
                   f"`{short(c, 50)}` can run before the image has been brought to the target mode ({fmt_path(p) if p else 'no mode test'}): PIL resamples palette/bilevel modes with NEAREST and "
                   "averages CMYK/HSV/premultiplied-alpha components, so the half-cell colours are no longer the BOX average of the converted pixels", stmt="pixel pipeline: convert to the target mode before resizing")
+            # the image is resampled as a whole: the receiver is the pipeline's image itself, not one of its channels or another conversion of it
+            # (colour planes resampled apart from alpha are averaged without alpha weighting: the hidden colour of transparent pixels bleeds in)
+            rt_ = norm(trace(fn, c.func.value, use=c)) if isinstance(c.func.value, ast.Name) else norm(c.func.value)
+            whole = isinstance(c.func.value, ast.Name) and not any(k_ in rt_ for k_ in ("getchannel(", ".split(", "Image.merge("))
+            ck.ob(rid, enclosing_stmt(c), whole, f"`{short(c, 60)}` resamples `{short(c.func.value, 40)}`, not the converted image as a whole: BOX-averaging colour without its alpha (or a channel on its own) "
+                  "is not the box average of the image's pixels", stmt="pixel pipeline: the image is resized as a whole")
             extra_kw = [k_.arg for k_ in c.keywords if k_.arg not in ("size", "resample")] + [norm(a_) for a_ in c.args[2:]]
             ck.ob(rid, enclosing_stmt(c), len(c.args) >= 2 and norm(c.args[0]) == "size" and norm(c.args[1]).endswith("BOX") and not extra_kw,
                   f"the image must be resized to exactly `size` with BOX resampling of the whole image in one step (no box=, reducing_gap=: a two-step reduction is not the box average); found `{short(c, 70)}`", stmt="pixel pipeline: resize(size, BOX)")
